@@ -110,6 +110,7 @@ fn legacy_programs(n: usize) -> Vec<P> {
         P::Select(s0(), s0()),
         P::Burst(s0(), s0()),
         P::SpawnAfter(s0(), s0()),
+        P::HandOff(s0(), s0(), s0()),
     ];
     let g = Grammar { unary: false, abortable: false, manual: false, trigger: true, sibling_abort: false, all3: true };
     dsl::terms_up_to(n, &atoms, g).into_iter().filter(app::legacy_ok).collect()
@@ -203,6 +204,8 @@ pub fn suites(id: &str, tier: Tier) -> Vec<Suite> {
                 v.push(Suite { name: "look-alikes", host, programs: la.clone(), bounds: b.clone() });
             }
             v.push(Suite { name: "look-alikes/legacy", host: HostKind::CoreLegacy, programs: legacy_filter(la.clone()), bounds: b.clone() });
+            v.push(Suite { name: "legacy-futures", host: HostKind::CoreLegacy, programs: legacy_programs(tier.pick(2, 3)), bounds: bounds(tier.pick(7, 8), 0, 0, 2, 2) });
+            v.push(Suite { name: "request-futures-changing-hands", host: HostKind::CoreCmd, programs: vec![P::HandOff(s0(), s0(), s0()).normalized(), P::HandOff(s0(), s0(), s0()).normalized().lookalike(2), P::All(vec![P::HandOff(s0(), s0(), s0()), P::Req(s0())]).normalized().lookalike(3)], bounds: bounds(tier.pick(7, 9), 0, 0, 2, 2) });
             v.push(Suite { name: "arities", host: HostKind::Direct, programs: plain(2), bounds: bounds(tier.pick(6, 8), 0, 1, 3, 3) });
             v.push(Suite { name: "arities/after-cleanup", host: HostKind::Direct, programs: with_abort(2), bounds: bounds(tier.pick(6, 8), 1, 1, 3, 2) });
             v
